@@ -71,6 +71,11 @@ def make_copy(tmp):
 
 
 def apply_mutant(copy, mut):
+    if isinstance(mut['file'], (list, tuple)):
+        # two cooperating sites: each edit alone leaves the behaviour intact
+        for f, o, n in zip(mut['file'], mut['old'], mut['new']):
+            apply_mutant(copy, dict(mut, file=f, old=o, new=n, count=1))
+        return
     path = os.path.join(copy, 'src', 'xdoctest', mut['file'])
     with open(path) as f:
         s = f.read()
